@@ -172,7 +172,7 @@ template <int S> struct Runner {
     // partials vs exact formulas on the published coefficients
     const auto &C = sp.getTrajectory().getCoefficients();
     Mat pc = sp.getEnergyPartialGradByCoeffs(); Eigen::VectorXd pt = sp.getEnergyPartialGradByTimes();
-    { Mat pc2; Eigen::VectorXd pt2; sp.getEnergyPartialGradByCoeffs(pc2); sp.getEnergyPartialGradByTimes(pt2); ++c.st.comparisons; if (!mat_bits_equal(pc, pc2) || pt.size() != pt2.size() || !bits_equal(pt.data(), pt2.data(), pt.size())) fail("energy-partial-overloads", p, "value/reference overloads of the partial gradients disagree"); }
+    { Mat pc2 = Mat::Constant(n, D, 1.0), pc3; Eigen::VectorXd pt2 = Eigen::VectorXd::Constant(N, 1.0), pt3; sp.getEnergyPartialGradByCoeffs(pc2); sp.getEnergyPartialGradByTimes(pt2); sp.getEnergyPartialGradByCoeffs(pc3); sp.getEnergyPartialGradByTimes(pt3); if (!mat_bits_equal(pc3, pc2) || !bits_equal(pt3.data(), pt2.data(), N)) fail("energy-partial-overloads", p, "reference overload depends on the previous contents of the output buffer"); ++c.st.comparisons; if (!mat_bits_equal(pc, pc2) || pt.size() != pt2.size() || !bits_equal(pt.data(), pt2.data(), pt.size())) fail("energy-partial-overloads", p, "value/reference overloads of the partial gradients disagree"); }
     if (pc.rows() != n || pt.size() != N) { fail("energy-partials-shape", p, "wrong sizes"); return; }
     for (int d = 0; d < D; ++d) for (int i = 0; i < N; ++i) {
       LD cc[16], gc[16], gt; piece_coeffs(C, M, i, d, cc); energy_piece_grad(cc, M, S, (LD)p.T[i], gc, gt);
@@ -198,8 +198,8 @@ template <int S> struct Runner {
     compare(pg, "propagated_partials_vs_jets", thr_egrad(S));
   }
 
-  void run_case(int N, const std::vector<double> &T) {
-    Prob p; p.N = N; p.T = T; p.t0 = 0.0;
+  void run_case(int N, const std::vector<double> &T, double t0) {
+    Prob p; p.N = N; p.T = T; p.t0 = t0;
     const int nb = J.nb;
     const bool th = c.args.thorough();
     if (VPROP == 5) {
@@ -236,7 +236,7 @@ template <int S> static void explore(Ctx &c, long &id) {
       { long ww = w; for (int i = 0; i < N; ++i) { int l = ww % base; ww /= base; T[i] = (base == 3 ? L[l] : (l == 0 ? L[0] : L[2])) * sigmas[si]; } }
       RefJac J = ref_jacobian(S, T);
       Runner<S> r(c, unit, J);
-      r.run_case(N, T);
+      r.run_case(N, T, (w % 3 == 0) ? 0.0 : (w % 3 == 1) ? -2.5 : 1024.125);
       ++c.st.evaluations;
       std::string key = fmt("S%d/N%d/b%d/w%ld/s%zu", S, N, base, w, si);
       if (!c.st.seen(key) && N >= 2) ++c.st.nontrivial;
